@@ -174,6 +174,10 @@ pub struct Cfg {
     /// 3: as 2, but the single rule for `A` has the higher priority, so the overlapping rule only contributes `S`
     #[serde(default)]
     pub custom_fns: u8,
+    /// the server app is built as a dedicated server (client plugins disabled) and every client app as a pure client
+    /// (server plugins disabled); otherwise every app has all plugins, as in the repository's tests
+    #[serde(default)]
+    pub split_plugins: bool,
 }
 
 impl Default for Cfg {
@@ -207,6 +211,7 @@ impl Default for Cfg {
             entity_offset: 0,
             markers: false,
             custom_fns: 0,
+            split_plugins: false,
         }
     }
 }
